@@ -3,7 +3,9 @@ package props
 import (
 	"bytes"
 	"fmt"
+	"github.com/wrgl/wrgl/pkg/ref"
 	"io"
+	"math/rand"
 	"os"
 	"os/exec"
 	"path/filepath"
@@ -12,6 +14,7 @@ import (
 	"strings"
 	"syscall"
 	"time"
+	"verif/refserver"
 
 	"github.com/go-logr/logr"
 	apiutils "github.com/wrgl/wrgl/pkg/api/utils"
@@ -103,6 +106,25 @@ func runWrglProc(env *fw.Env, dir string, extraEnv []string, args ...string) cli
 type c13Scenario struct {
 	args     []string // the operation under test
 	needHead bool     // heads/* written by this op must have their table
+	close    func()   // scenario resources that live as long as the case (the reference server of fetch/pull)
+}
+
+// c13Remote builds the remote side of the fetch/pull scenarios: a seeded history in memory stores behind the reference
+// server, which runs in this worker while the real `wrgl` binary talks to it over the loopback interface.
+func c13Remote(p *c13Params) (*history, *mon.MemStore, ref.Store, *refserver.Server, func(), error) {
+	db := mon.NewMemStore()
+	rng := rand.New(rand.NewSource(int64(p.Rows)*7919 + 13))
+	// c0 <- c1 <- c2 <- c4(merge of c2,c3), c1 <- c3 ; tag on c3
+	h, err := buildHistory(db, rng, histOpts{BaseRows: p.Rows, Parents: [][]int{{}, {0}, {1}, {1}, {2, 3}}})
+	if err != nil {
+		return nil, nil, nil, nil, nil, err
+	}
+	rs, sdb, err := mon.NewMemRefStore()
+	if err != nil {
+		return nil, nil, nil, nil, nil, err
+	}
+	srv := refserver.New(db, rs, 2000)
+	return h, db, rs, srv, func() { srv.Close(); sdb.Close() }, nil
 }
 
 func writeCSV(path string, rows int, variant int) {
@@ -206,6 +228,49 @@ func c13Template(env *fw.Env, dir string, p *c13Params) (*c13Scenario, error) {
 		}
 		sc.args = []string{"prune", "--no-progress"}
 		sc.needHead = true
+	case "commit-shared":
+		// the committed data equals a table another branch already uses: nothing of it may be taken away again
+		if err := commit("main", "d0.csv", "first"); err != nil {
+			return nil, err
+		}
+		if err := commit("other", "d1.csv", "other holds d1"); err != nil {
+			return nil, err
+		}
+		sc.args = []string{"commit", "main", "d1.csv", "same data as other", "-p", "id", "--no-progress", "-n", w}
+	case "commit-revert":
+		if err := commit("main", "d0.csv", "first"); err != nil {
+			return nil, err
+		}
+		if err := commit("main", "d1.csv", "second"); err != nil {
+			return nil, err
+		}
+		sc.args = []string{"commit", "main", "d0.csv", "back to the first data", "-p", "id", "--no-progress", "-n", w}
+	case "fetch", "pull":
+		h, _, rrs, srv, closeFn, err := c13Remote(p)
+		if err != nil {
+			return nil, err
+		}
+		sc.close = closeFn
+		if _, err := run("remote", "add", "origin", srv.URL()); err != nil {
+			return nil, err
+		}
+		save := func(name string, i int) {
+			ref.SaveRef(rrs, name, h.sums[i], "setup", "s@x", "setup", "remote", nil)
+		}
+		if p.Op == "fetch" {
+			save("heads/main", 4)
+			save("heads/side", 3)
+			save("tags/rel1", 2)
+			sc.args = []string{"fetch", "origin", "--no-progress"}
+		} else {
+			// the local branch follows origin/main at c1; the remote then moves on to the merge commit c4
+			save("heads/main", 1)
+			if _, err := run("pull", "main", "origin", "refs/heads/main:refs/remotes/origin/main", "--no-progress", "--set-upstream"); err != nil {
+				return nil, err
+			}
+			save("heads/main", 4)
+			sc.args = []string{"pull", "main", "--no-progress"}
+		}
 	case "tx-commit":
 		if err := commit("main", "d0.csv", "first"); err != nil {
 			return nil, err
@@ -252,6 +317,9 @@ func c13CLI(c *fw.Case, env *fw.Env, o *fw.Obs, p *c13Params) *fw.Obs {
 		o.Status = "inconclusive"
 		o.Note = err.Error()
 		return o
+	}
+	if sc.close != nil {
+		defer sc.close()
 	}
 	class := p.Op + "/" + p.Fault
 	// uninterrupted run: learn the write sequence and the outcome
@@ -701,7 +769,7 @@ func init() {
 		Workers:     8,
 		Gen: func(tier string, seed int64) []fw.Case {
 			l := fw.NewCaseList("C13", tier, seed)
-			ops := []string{"commit-new", "commit-existing", "merge-ff", "merge-noff", "merge-real", "prune", "tx-commit"}
+			ops := []string{"commit-new", "commit-existing", "commit-shared", "commit-revert", "merge-ff", "merge-noff", "merge-real", "prune", "tx-commit", "fetch", "pull"}
 			for _, op := range ops {
 				for _, fault := range []string{"crash", "fail"} {
 					sizes := []int{5}
@@ -714,6 +782,9 @@ func init() {
 						workers := []int{1}
 						if tier == "thorough" {
 							workers = []int{1, 4, 8}
+						}
+						if op == "fetch" || op == "pull" || op == "commit-revert" {
+							workers = workers[:1]
 						}
 						for _, w := range workers {
 							l.Add("cli", c13Params{Driver: "cli", Op: op, Rows: rows, Fault: fault, Workers: w}, 0)
